@@ -19,11 +19,6 @@ import (
 type C01Scenario struct {
 	Sync SyncScenario `json:"sync"`
 	Alt  *Transport   `json:"alt,omitempty"` // second schedule for the same scenario
-	// Kill: the prior state of the destination is what a process kill (of
-	// both ends) at scheduler step Kill.PerMille/1000 of an earlier, identical
-	// sync would have left behind - temporary files, half-created directories
-	// and all. The judged sync then starts from that state.
-	Kill *KillPoint `json:"kill,omitempty"`
 }
 
 // temporary names of renameio pending files and of the symlink replacement
@@ -36,9 +31,22 @@ type KillPoint struct {
 // killedState replaces the destination by the state a kill at the drawn
 // step of an earlier identical sync leaves. It reports false (with res
 // filled in) when the scenario cannot be set up.
-func killedState(t *testing.T, sc *C01Scenario, lay Layout, res *Result) bool {
+func killedState(t *testing.T, judged *SyncScenario, lay Layout, res *Result) bool {
+	pre := *judged
+	pre.Kill = nil
+	pre.Opts = nil
+	for _, o := range judged.Opts {
+		if o != "-n" && o != "--dry-run" {
+			pre.Opts = append(pre.Opts, o) // a dry run would leave nothing behind
+		}
+	}
+	sc := &struct{ Sync SyncScenario }{pre}
 	droot := destRootFor(&sc.Sync, lay)
 	// 1. measure: how many scheduler steps does the sync take?
+	if judged.Arr == "A4" || judged.Kill.PerMille < 0 || judged.Kill.PerMille > 1000 {
+		res.Invalid = "kill mode needs a scheduled arrangement"
+		return false
+	}
 	m := RunSyncSession(t, &sc.Sync, lay, SessionHooks{})
 	res.AddSession(m)
 	if m.Harness != "" || m.Outcome != kernel.Finished || m.ClientErr != nil || m.ServerErr != nil || m.Panic != "" {
@@ -50,7 +58,7 @@ func killedState(t *testing.T, sc *C01Scenario, lay Layout, res *Result) bool {
 		res.Invalid = err.Error()
 		return false
 	}
-	at := 1 + m.Stats.Steps*sc.Kill.PerMille/1000
+	at := 1 + m.Stats.Steps*judged.Kill.PerMille/1000
 	copyDir := lay.Dst + ".killed"
 	fstree.RemoveAll(copyDir)
 	var copyErr error
@@ -315,7 +323,7 @@ func (c01) Generate(seed uint64, tier string, index int) any {
 		sc.Alt = &alt
 	}
 	if sc.Alt == nil && arr != "A4" && g.R.Intn(5) == 0 {
-		sc.Kill = &KillPoint{PerMille: g.R.Intn(1001)}
+		sc.Sync.Kill = &KillPoint{PerMille: g.R.Intn(1001)}
 	}
 	return sc
 }
@@ -380,12 +388,8 @@ func (c01) Run(t *testing.T, scenario any, job *Job, res *Result) {
 			res.Invalid = err.Error()
 			return
 		}
-		if sc.Kill != nil {
-			if sc.Sync.Arr == "A4" || sc.Kill.PerMille < 0 || sc.Kill.PerMille > 1000 {
-				res.Invalid = "kill mode needs a scheduled arrangement"
-				return
-			}
-			if !killedState(t, sc, lay, res) {
+		if sc.Sync.Kill != nil {
+			if !killedState(t, &sc.Sync, lay, res) {
 				return
 			}
 		}
